@@ -116,6 +116,25 @@ def main(argv=None):
         print(f"ANALYSIS-ERROR unknown property {pid}")
         return 2
     t0 = time.time()
+    # wall-clock budget: an analysed change can make the symbolic evaluation explode (or loop); the check then ends as analysis-error
+    # instead of hanging.  Generous: quick checks take seconds, thorough ones minutes.
+    budget = int(os.environ.get("FDV_TIME_BUDGET", "900" if tier == "quick" else "7200"))
+
+    def _out_of_time(signum, frame):
+        import multiprocessing as _mp
+        print(f"ANALYSIS-ERROR property={pid} time budget of {budget} s exceeded (the evaluation does not terminate in reasonable time on this tree)", flush=True)
+        for ch in _mp.active_children():
+            try:
+                ch.terminate()
+            except Exception:    # noqa
+                pass
+        os._exit(2)
+    try:
+        import signal as _signal
+        _signal.signal(_signal.SIGALRM, _out_of_time)
+        _signal.alarm(budget)
+    except (ValueError, AttributeError):
+        pass
     ev_dir = pathlib.Path(os.environ["FDV_EVIDENCE"]) if os.environ.get("FDV_EVIDENCE") else VERIF / "evidence"   # dev sweeps write elsewhere
     ev_path = ev_dir / f"{pid}.json"
     ev_path.parent.mkdir(parents=True, exist_ok=True)
